@@ -121,6 +121,8 @@ def t1(site, p):
     r0 = ledger.t1_common(site)
     if r0:
         return r0
+    if ledger.is_str_slice(site):
+        return None
     if k == "overflow":
         a, b = const_small(x.get("a", ("unk",))), const_small(x.get("b", ("unk",)))
         if a is not None and b is not None:
